@@ -35,27 +35,31 @@ def pipeEntry (s : St) (m : Meta) : Option PipeEntry := s.pipe.find? (·.key == 
 the tag of a flow whose destination is that server -/
 theorem sent_to_own_destination (c : Cfg) (ops : List Op) :
     ∀ o ∈ obsOf c ops, ∀ x ∈ o.srv, x.1 = x.2.1.dst := by
-  sorry
+  intro o ho
+  exact (run_obs_forall (P := fun o => (∀ x ∈ o.srv, x.1 = x.2.1.dst) ∧ (∀ x ∈ o.cli, x.1 = x.2.1))
+    (fun _ op h => step_obs h op) (inv_init c) ops o ho).1
 
 /-- one client datagram reaches at most its own destination, once, unchanged in length, and
 nothing is delivered to the client by it -/
 theorem datagram_step_output (c : Cfg) (ops : List Op) (m : Meta) (len : Nat) :
     let o := (step c (after c ops) (.dg m len)).2
     (o.srv = [] ∨ o.srv = [(m.dst, m, len)]) ∧ o.cli = [] := by
-  sorry
+  exact step_dg_obs (runFrom_inv c ops) m len
 
 /-- **a datagram arriving on a flow's socket is returned labelled with that flow, never
 another**: the flow the labels name is the flow the server answered -/
 theorem reply_labelled_with_own_flow (c : Cfg) (ops : List Op) :
     ∀ o ∈ obsOf c ops, ∀ x ∈ o.cli, x.1 = x.2.1 := by
-  sorry
+  intro o ho
+  exact (run_obs_forall (P := fun o => (∀ x ∈ o.srv, x.1 = x.2.1.dst) ∧ (∀ x ∈ o.cli, x.1 = x.2.1))
+    (fun _ op h => step_obs h op) (inv_init c) ops o ho).2
 
 /-- a live flow's reply is delivered (not merely "if delivered then labelled correctly") -/
 theorem reply_delivered_on_live_flow (c : Cfg) (ops : List Op) (m : Meta) (len : Nat)
     (hs : (findSock (after c ops) m).isSome)
     (hk : c.kind m.dst = .live ∨ c.kind m.dst = .dns) :
     (step c (after c ops) (.reply m len)).2.cli = [(m, m, len)] := by
-  sorry
+  exact step_reply_live (runFrom_inv c ops) len hs hk
 
 /-! ## The two tables stay coupled; sockets follow flows -/
 
@@ -66,14 +70,17 @@ theorem tables_coupled (c : Cfg) (ops : List Op) :
     (∀ m, hasPipe s m = (findSock s m).isSome) ∧
     (s.pipe.map (·.key)).Nodup ∧ (s.socks.map (·.key)).Nodup ∧
     s.gauge = s.flows := by
-  sorry
+  have h : Inv c (after c ops) := runFrom_inv c ops
+  refine ⟨h.core.coupled, h.core.nodupK, h.core.nodupSK, ?_⟩
+  have := congrArg List.length h.core.keys
+  simpa [St.gauge, St.flows] using this
 
 /-- every open socket belongs to a flow the client actually sent a datagram on, and is
 connected to that flow's destination: the socket count is bounded by the number of distinct
 flows in the history -/
 theorem sockets_from_history (c : Cfg) (ops : List Op) :
     ∀ k ∈ (after c ops).socks, k.dest = k.key.dst ∧ ∃ len, Op.dg k.key len ∈ ops := by
-  sorry
+  exact runFrom_socks c ops
 
 /-! ## Expiry -/
 
@@ -85,14 +92,26 @@ theorem idle_flow_released (c : Cfg) (pre ops : List Op) (m : Meta)
     (hd : c.timeout + c.timeout / 4 < advSum ops) :
     let s := after c (pre ++ ops)
     hasPipe s m = false ∧ findSock s m = none := by
-  sorry
+  have hadv : ∀ l : List Op, advSum l = advTotal l := by
+    intro l
+    induction l with
+    | nil => rfl
+    | cons op l ih => cases op <;> simp [advSum, advTotal, ih]
+  have hc : ∀ op, touches m op = concerns m op := fun op => by cases op <;> rfl
+  have := idle_released (runFrom_inv c pre) ops m (fun op ho => by rw [← hc]; exact hu op ho)
+    (by rw [← hadv]; exact hd)
+  show hasPipe (run c (init c) (pre ++ ops)).1 m = false ∧ findSock (run c (init c) (pre ++ ops)).1 m = none
+  rw [run_append_fst]
+  exact this
 
 /-- after the timer has fired no entry older than the timeout remains -/
 theorem tick_expires_all_idle (c : Cfg) (ops : List Op) (ms : Nat)
     (hf : (after c ops).finished = false)
     (htick : (after c ops).nextTick ≤ (after c ops).now + ms) :
     ∀ e ∈ (after c (ops ++ [.adv ms])).pipe, e.last + c.timeout ≥ (after c ops).now + ms := by
-  sorry
+  show ∀ e ∈ (run c (init c) (ops ++ [.adv ms])).1.pipe, _
+  rw [run_snoc_fst]
+  exact step_adv_tick ms hf htick
 
 /-- **never early**: a time advance releases only flows idle for longer than the timeout -/
 theorem fresh_flow_survives_advance (c : Cfg) (ops : List Op) (ms : Nat) (m : Meta) (e : PipeEntry)
@@ -100,12 +119,15 @@ theorem fresh_flow_survives_advance (c : Cfg) (ops : List Op) (ms : Nat) (m : Me
     (hfresh : (after c ops).now + ms ≤ e.last + c.timeout) :
     let s' := after c (ops ++ [.adv ms])
     pipeEntry s' m = some e ∧ findSock s' m = findSock (after c ops) m := by
-  sorry
+  show pipeEntry (run c (init c) (ops ++ [.adv ms])).1 m = some e ∧
+    findSock (run c (init c) (ops ++ [.adv ms])).1 m = findSock (after c ops) m
+  rw [run_snoc_fst]
+  exact step_adv_fresh (runFrom_inv c ops) ms he hfresh
 
 /-- the timer is never later than a quarter of the timeout -/
 theorem tick_period (c : Cfg) (ops : List Op) :
     (after c ops).nextTick ≤ (after c ops).now + c.timeout / 4 := by
-  sorry
+  exact (runFrom_inv c ops).core.tick
 
 /-- **a port-53 flow whose queries have all been answered is released**: the reply that brings
 the pending count to zero removes the flow from both tables (and is itself delivered) -/
@@ -113,7 +135,7 @@ theorem dns_flow_released_when_answered (c : Cfg) (ops : List Op) (m : Meta) (le
     (he : pipeEntry (after c ops) m = some e) (hp : e.pending = some 1) :
     let r := step c (after c ops) (.reply m len)
     r.2.cli = [(m, m, len)] ∧ hasPipe r.1 m = false ∧ findSock r.1 m = none := by
-  sorry
+  exact step_reply_dns_done (runFrom_inv c ops) len he hp
 
 /-- ... and while queries are outstanding it stays, counting down -/
 theorem dns_flow_kept_while_pending (c : Cfg) (ops : List Op) (m : Meta) (len n : Nat) (e : PipeEntry)
@@ -122,7 +144,7 @@ theorem dns_flow_kept_while_pending (c : Cfg) (ops : List Op) (m : Meta) (len n 
     r.2.cli = [(m, m, len)] ∧
     pipeEntry r.1 m = some { e with last := (after c ops).now, pending := some (n + 1) } ∧
     findSock r.1 m = findSock (after c ops) m := by
-  sorry
+  exact step_reply_dns_pending (runFrom_inv c ops) len n he hp
 
 /-- the pending count of a port-53 flow is the number of queries minus the number of answers
 seen since the flow was created: each client datagram on an existing flow adds one -/
@@ -131,7 +153,11 @@ theorem dns_query_counts (c : Cfg) (ops : List Op) (m : Meta) (len n : Nat) (e :
     (hs : ∀ k, findSock (after c ops) m = some k → k.poisoned = false) :
     pipeEntry (step c (after c ops) (.dg m len)).1 m
       = some { e with last := (after c ops).now, pending := some (n + 1) } := by
-  sorry
+  have h : Inv c (after c ops) := runFrom_inv c ops
+  have := step_dg_existing h len he hs
+  unfold pipeEntry
+  rw [this]
+  simp [touchOut, hp]
 
 /-- **a later datagram on the same pair simply starts a fresh flow**: on a connectable
 destination, a datagram on a flow that is not in the table creates it in both tables with a
@@ -145,7 +171,7 @@ theorem datagram_starts_fresh_flow (c : Cfg) (ops : List Op) (m : Meta) (len : N
     r.2.srv = [(m.dst, m, len)] ∧ hasPipe r.1 m = true ∧
     findSock r.1 m = some { key := m, id := s.nextId, dest := m.dst, poisoned := false } ∧
     (∀ k ∈ s.socks, k.id ≠ s.nextId) := by
-  sorry
+  exact step_dg_fresh (runFrom_inv c ops) len hf hn hk
 
 /-! ## Isolation and confinement of errors -/
 
@@ -157,12 +183,22 @@ theorem other_flows_undisturbed (c : Cfg) (ops : List Op) (op : Op) (m m' : Meta
     let s := after c ops
     let s' := (step c s op).1
     pipeEntry s' m' = pipeEntry s m' ∧ findSock s' m' = findSock s m' := by
-  sorry
+  cases op with
+  | dg m0 len =>
+    have : m0 = m := by simpa [touches] using ht
+    subst this
+    exact step_dg_other m0 len hne
+  | reply m0 len =>
+    have : m0 = m := by simpa [touches] using ht
+    subst this
+    exact step_reply_other (runFrom_inv c ops) m0 len hne
+  | adv ms => simp [touches] at ht
+  | close => simp [touches] at ht
 
 /-- **no flow error terminates the multiplexer**: only the client going away ends it -/
 theorem only_close_terminates (c : Cfg) (ops : List Op) (h : ∀ op ∈ ops, op ≠ .close) :
     (after c ops).finished = false := by
-  sorry
+  exact run_not_finished c (init c) ops rfl h
 
 /-- a destination that cannot be connected leaves nothing behind -/
 theorem unconnectable_leaves_nothing (c : Cfg) (ops : List Op) (m : Meta) (len : Nat)
@@ -170,7 +206,7 @@ theorem unconnectable_leaves_nothing (c : Cfg) (ops : List Op) (m : Meta) (len :
     let s := after c ops
     let r := step c s (.dg m len)
     r.2.srv = [] ∧ r.1.pipe = s.pipe ∧ r.1.socks = s.socks ∧ r.1.finished = s.finished := by
-  sorry
+  exact step_dg_unconn (runFrom_inv c ops) len hk
 
 /-- a send that reports a socket error releases that flow (both tables) and nothing else; the
 next datagram on the pair starts afresh (`datagram_starts_fresh_flow`) -/
@@ -180,12 +216,17 @@ theorem socket_error_releases_flow (c : Cfg) (ops : List Op) (m : Meta) (len : N
     let r := step c (after c ops) (.dg m len)
     hasPipe r.1 m = false ∧ findSock r.1 m = none ∧ r.1.finished = false ∧
     r.1.gauge + 1 = (after c ops).gauge := by
-  sorry
+  have _ := hf
+  exact step_dg_poisoned (runFrom_inv c ops) len hs hp
 
 /-- when the client goes away everything is released -/
 theorem close_releases_everything (c : Cfg) (ops : List Op) :
     (after c (ops ++ [.close])).gauge = 0 ∧ (after c (ops ++ [.close])).flows = 0 := by
-  sorry
+  have h : Inv c (after c ops) := runFrom_inv c ops
+  have e : after c (ops ++ [.close]) = (step c (after c ops) .close).1 := run_snoc_fst c (init c) ops _
+  have := step_close h
+  rw [e]
+  simp [St.gauge, St.flows, this.1, this.2]
 
 /-! ## Relayed bytes -/
 
@@ -193,7 +234,10 @@ theorem close_releases_everything (c : Cfg) (ops : List Op) :
 delivered to the client -/
 theorem down_bytes_are_delivered_bytes (c : Cfg) (ops : List Op) :
     (after c ops).down = ((obsOf c ops).map fun o => (o.cli.map (·.2.2)).sum).sum := by
-  sorry
+  have := run_down c (init c) ops
+  show (run c (init c) ops).1.down = ((run c (init c) ops).2.map _).sum
+  rw [this]
+  exact Nat.zero_add _
 
 /-! ## Non-vacuity -/
 
